@@ -408,18 +408,20 @@ impl LexiconReader {
             x => (x, self.entries.len()),
         };
         for e in self.entries.iter() {
-            if e.left_id >= self.max_left {
+            // a word's left_id is the `right` argument of ConnectionMatrix::cost (bounded by num_right),
+            // its right_id the `left` argument (bounded by num_left)
+            if e.left_id >= self.max_right {
                 return ctx.err(BuildFailure::InvalidFieldSize {
                     actual: e.left_id as _,
-                    expected: self.max_left as _,
+                    expected: self.max_right as _,
                     field: "left_id",
                 });
             }
 
-            if e.right_id >= self.max_right {
+            if e.right_id >= self.max_left {
                 return ctx.err(BuildFailure::InvalidFieldSize {
                     actual: e.right_id as _,
-                    expected: self.max_right as _,
+                    expected: self.max_left as _,
                     field: "right_id",
                 });
             }
@@ -427,7 +429,7 @@ impl LexiconReader {
             if e.should_index() && e.right_id < 0 {
                 return ctx.err(BuildFailure::InvalidFieldSize {
                     actual: e.right_id as u16 as _,
-                    expected: self.max_right as _,
+                    expected: self.max_left as _,
                     field: "right_id",
                 });
             }
